@@ -6,6 +6,7 @@ import Rmk.Proofs.DiffHistory
 import Rmk.Proofs.ItersLaws
 import Rmk.Proofs.ReprBasics
 import Rmk.Proofs.RootInjective
+import Rmk.Proofs.ElemLaws
 namespace Rmk.C15
 open Rmk
 
@@ -107,5 +108,33 @@ theorem eq_iff_content (H : Hash) (hH : Injective2 H) (t : Ty) (hwf : t.wf = tru
 /-! Non-vacuity -/
 example : Impl.nodeIter (.pair (.pair (.leaf [1]) (.leaf [2])) (.pair (.leaf [3]) (.leaf [4]))) 2 3 =
     some [.leaf [1], .leaf [2], .leaf [3]] := by decide
+
+/-! ### indexing, `len()`, in-range slicing (the element-wise view API, `Rmk/Impl/Elem.lean`) -/
+
+/-- INDEXING: `view[i]` / `view.field_i` on ANY tree that represents `v` (whatever its history) is element `i`
+    of `v` … -/
+theorem index_read (H : Hash) (t : Ty) (v : Val) (n : Node) (i : Nat)
+    (hwf : t.wf = true) (hlim : ReprBasics.limitsOk t = true) (h : Impl.Repr H t v n) :
+    Impl.readElem H t n i = Impl.elemAt v i :=
+  ElemLaws.readElem_repr H t v n i hwf hlim h
+
+/-- … and fails exactly when the index is out of range, -/
+theorem index_fails_iff_out_of_range (H : Hash) (t : Ty) (v : Val) (n : Node) (i len : Nat)
+    (hwf : t.wf = true) (hlim : ReprBasics.limitsOk t = true) (hk : ElemLaws.indexable t = true)
+    (h : Impl.Repr H t v n) (hl : Impl.lenOf v = some len) :
+    Impl.readElem H t n i = none ↔ len ≤ i :=
+  ElemLaws.readElem_repr_none_iff H t v n i len hwf hlim hk h hl
+
+/-- `len(view)` is the number of elements of the value, -/
+theorem len_read (H : Hash) (t : Ty) (v : Val) (n : Node) (hlim : ReprBasics.limitsOk t = true)
+    (hk : ElemLaws.sized t = true) (h : Impl.Repr H t v n) : Impl.viewLen H t n = Impl.lenOf v :=
+  ElemLaws.viewLen_repr H t v n hlim hk h
+
+/-- and an in-range slice `view[a:b]` is exactly the elements `a … b-1` of the value, in order. -/
+theorem slice_read (H : Hash) (t : Ty) (v : Val) (n : Node) (a b len : Nat)
+    (hwf : t.wf = true) (hlim : ReprBasics.limitsOk t = true) (hk : ElemLaws.indexable t = true)
+    (h : Impl.Repr H t v n) (hab : a ≤ b) (hl : Impl.lenOf v = some len) (hb : b ≤ len) :
+    Impl.sliceRead H t n a b = some (((ElemLaws.elems v).drop a).take (b - a)) :=
+  ElemLaws.sliceRead_repr_elems H t v n a b len hwf hlim hk h hab hl hb
 
 end Rmk.C15
